@@ -62,10 +62,23 @@ D3 == [ name |-> "D3",
                   r6 |-> Same("", {"r2", "r3"}), r7 |-> Other("") ],
         pl |-> NoPlaces({"r1", "r2", "r3", "r4", "r5", "r6", "r7"}) ]
 
+\* D4: integers at the ends of the 64-bit range (the harness maps N(1000000) / N(-1000000) to the largest / smallest int64, monotonically):
+\* differences of two values do not fit the type
+NBig == N(1000000)      NSmall == N(-1000000)
+D4 == [ name |-> "D4",
+        names |-> [r1 |-> sA, r2 |-> sB, r3 |-> sAB, r4 |-> sUA, r5 |-> s1, r6 |-> sBB],
+        row |-> [ r1 |-> Row(S(sA), NBig, N(1), F2(2), B(TRUE), D(1), {}, "", {}, NoTags),
+                  r2 |-> Row(S(sB), N(-2), N(1), F2(2), B(TRUE), D(1), {}, "r1", {}, NoTags),
+                  r3 |-> Row(S(sA), NSmall, N(0), F2(3), B(FALSE), D(2), {}, "", {}, NoTags),
+                  r4 |-> Row(S(sB), N(1), N(0), Nil, Nil, Nil, {}, "r3", {}, NoTags),
+                  r5 |-> Row(Nil, Nil, Nil, F2(-1), B(FALSE), D(0), {}, "", {}, NoTags),
+                  r6 |-> Row(S(sAB), NBig, N(2), F2(0), Nil, D(3), {}, "r2", {}, NoTags) ],
+        pl |-> NoPlaces({"r1", "r2", "r3", "r4", "r5", "r6"}) ]
+
 \* D0: the empty store
 D0 == [name |-> "D0", names |-> << >>, row |-> << >>, pl |-> NoPlaces({})]
 
-Datasets == (IF Mode = "mix" THEN {D1, D0} ELSE IF Mode = "page" THEN {D1, D2, D3} ELSE IF Mode \in {"datasets", "bool"} THEN {D1, D2, D3, D0} ELSE {D1, D2})
+Datasets == (IF Mode = "mix" THEN {D1, D0} ELSE IF Mode = "page" THEN {D1, D2, D3, D4} ELSE IF Mode \in {"datasets", "bool"} THEN {D1, D2, D3, D0, D4} ELSE {D1, D2})
             \cup (IF Mode \in {"datasets", "scalar", "set", "bool", "subq", "page"} THEN RandDatasets ELSE {})
 
 \* ---- literal pools
